@@ -237,7 +237,7 @@ def race_strategy():
     )
 
 
-HOT = ("_on_connected", "_dispatcher_thread_function", "_on_connection_message_received", "_on_disconnected", "_process_send_queue", "_on_disconnecting")
+HOT = ("_on_connected", "_dispatcher_thread_function", "_on_connection_message_received", "_on_disconnected", "_process_send_queue", "_on_disconnecting", "_receiver_thread_function")
 
 
 @st.composite
